@@ -269,6 +269,7 @@ func (a *Allocator) Realloc(id string, affinity NodeMask, types TypeMask) (NodeM
 	}
 
 	defer a.validateState("Realloc")
+	defer a.cleanupUnusedZones()
 
 	return a.realloc(req, affinity, types)
 }
